@@ -5,7 +5,8 @@ test suite still gives the baseline with the patch), run ./check <ID> against a 
 and store confirmed changes under /verif/seeded/<ID>/m<i>/ with the outcome in meta.json."""
 import glob, json, os, shutil, subprocess, sys
 pid = sys.argv[1]
-wt = '/tmp/seed-%s' % pid
+rnd = int(sys.argv[sys.argv.index('--round') + 1]) if '--round' in sys.argv else 1
+wt = '/tmp/seed-%s' % pid if rnd == 1 else '/tmp/seed%d-%s' % (rnd, pid)
 out = wt + '-out'
 BASE_FAIL = {'test_pose_encode', 'test_find_message_types'}
 
@@ -54,7 +55,7 @@ for d in sorted(glob.glob(out + '/m*')):
                            'caught': caught, 'lines': viol, 'tail': o[-400:] if not caught else ''}})
     results.append((name, 'confirmed' if confirmed else 'NOT confirmed (clean=%s mut=%s suite=%s)' % (clean_rc, mut_rc, line), caught))
     if confirmed or '--keep-all' in sys.argv:
-        dst = '/verif/seeded/%s/%s' % (pid, name)
+        dst = '/verif/seeded/%s/%s' % (pid, name if rnd == 1 else 'r%d-%s' % (rnd, name))
         os.makedirs(dst, exist_ok=True)
         for f in os.listdir(d):
             if os.path.isfile(os.path.join(d, f)) and os.path.getsize(os.path.join(d, f)) < 200000:
